@@ -69,7 +69,10 @@ RecKey(e) ==
       [] e.t \in ACKinds ->
             [t |-> e.t, bag |-> BagOfSeq([i \in 1..Len(e.c) |-> RecKey(e.c[i])])]
       [] e.t \in {"Var", "Const"} -> e
-      [] OTHER -> [t |-> e.t, ks |-> [i \in 1..Len(Kids(e)) |-> RecKey(Kids(e)[i])]]
+      \* every other kind: the node with its children blanked (keeps the comparison
+      \* operator, the attribute name, the keyword names) plus the children's keys
+      [] OTHER -> [t |-> e.t, ks |-> [i \in 1..Len(Kids(e)) |-> RecKey(Kids(e)[i])],
+                   sk |-> WithKids(e, [i \in 1..Len(Kids(e)) |-> NoneE])]
 
 OpNodes(e)  == {n \in SubExprs(e) : IsOp(n)}
 Wrappers(e) == {n \in SubExprs(e) : IsW(n)}
@@ -282,12 +285,27 @@ CMSeq(es, i, tab, elim) ==
     ELSE LET r    == CM(es[i], tab, elim)
              rest == CMSeq(es, i + 1, r.tab, elim)
          IN [es |-> << r.e >> \o rest.es, tab |-> rest.tab]
+\* IdentityMapper's handlers: map every child (in Kids order, which is the order of every
+\* handler), then "nothing changed -> return the original node", else rebuild.  Every
+\* handler has its OWN shortcut test over its own child positions (function, parameters
+\* and keyword values of a call; aggregate and index; condition and both branches; ...):
+\* CheckedPos is the set of positions the handler of e's kind looks at.  The shortcut is
+\* only right when it looks at EVERY position - the negative controls drop one.
+CheckedPos(e) ==
+    LET n == Len(Kids(e)) IN
+    IF Bug = "ShortcutSkipsFunction" /\ e.t \in {"Call", "CallKw"} THEN 2..n
+    ELSE IF Bug = "ShortcutSkipsLast" /\ e.t \notin ACKinds /\ n >= 2 THEN 1..(n - 1)
+    ELSE 1..n
 IdMap(e, tab, elim) ==
-    LET r == CMSeq(Kids(e), 1, tab, elim) IN [e |-> WithKids(e, r.es), tab |-> r.tab]
+    LET r  == CMSeq(Kids(e), 1, tab, elim)
+        ks == Kids(e)
+    IN [e |-> IF \A i \in CheckedPos(e) : r.es[i] = ks[i] THEN e ELSE WithKids(e, r.es),
+        tab |-> r.tab]
 CM(e, tab, elim) ==
     IF e.t \in {"Var", "Const"} THEN [e |-> e, tab |-> tab]
     ELSE IF e.t = "CSE" THEN
         LET r == CM(e.a, tab, elim) IN [e |-> WrapInCseImpl(r.e, e.prefix), tab |-> r.tab]
+    ELSE IF ~IsOp(e) THEN IdMap(e, tab, elim)    \* every other kind: IdentityMapper's handler
     ELSE LET k == KeyOf(e) IN
          IF k \in elim /\ Bug # "NeverTag" THEN
             (IF k \in DOMAIN tab /\ Bug # "NoCanonical" THEN [e |-> tab[k], tab |-> tab]
@@ -313,8 +331,10 @@ HistoSeq(es, h) ==
     IN Go(1, h)
 Histo(e, h) == HistoSeq(Kids(e), BagInc(h, e))
 RECURSIVE HTag(_, _)
+HistTagKinds == OpKinds \cup {"LShift", "RShift", "BitNot", "BitOr", "BitXor", "BitAnd", "Cmp",
+                             "LogNot", "LogAnd", "LogOr", "If"}
 HTag(e, h) ==
-    IF IsOp(e) /\ BagGet(h, e) > 1 THEN CSE(e, "", EvalScope)
+    IF e.t \in HistTagKinds /\ BagGet(h, e) > 1 THEN CSE(e, "", EvalScope)
     ELSE WithKids(e, [i \in 1..Len(Kids(e)) |-> HTag(Kids(e)[i], h)])
 HistTagImpl(ins) ==
     LET h == HistoSeq(ins, EmptyBag) IN [j \in 1..Len(ins) |-> HTag(ins[j], h)]
